@@ -27,7 +27,7 @@ pub open spec fn valid_status(st: KeyStatus) -> bool {
 }
 
 /// the per-endpoint rule item of the document (None: the document carries none)
-pub enum Endpoint { WireServer, Imds, HostGA }
+// `pub enum Endpoint { WireServer, Imds, HostGA }`: text imported from contracts/redirect/unit.py ENDPOINT_SPEC, emitted right before this file
 pub open spec fn doc_rules(st: KeyStatus, e: Endpoint) -> Option<AuthorizationItem> {
     match st.authorizationRules {
         Some(r) => match e { Endpoint::WireServer => r.wireserver, Endpoint::Imds => r.imds, Endpoint::HostGA => r.hostga },
